@@ -193,7 +193,9 @@ def make_inputs(d, n):
                 w.close()
             else:
                 path = os.path.join(raw, "%d.npy" % i)
-                np.save(path, sig.astype(np.float64))
+                # utterance 3 is stored channels-first with ONE channel, shape (1, S); the others are 1-D: both are legal with
+                # the default --channel -1, in any order, on one dataset object
+                np.save(path, sig.astype(np.float64)[None, :] if i == 3 else sig.astype(np.float64))
             paths.append(path)
             mp.write("%s %s\n" % (IDS[i], path))
     return paths
